@@ -454,6 +454,17 @@ def matrix_library():
         add("c_filter_" + nk, "std.filter(%s, [1, 2])" % fn, ["@", "std.length(@)"])
         add("c_sortkey_" + nk, "std.sort([2, 1], %s)" % fn, ["@", "@[0]"])
         add("c_foldl_" + nk, "std.foldl(%s, [1, 2], 0)" % fn, ["@"])
+    # operations that fail on operands which are themselves memoised fields of the shared object (the operands survive the
+    # failed request, partly forced)
+    memo = ("{fs:: [0, std.length, 1], o:: {a: 1, f: std.length, z: 2}, nested:: [0, [1, function(x) x], 2], un:: [1, null, 2], "
+            "mixed:: [1, 'a'], deep:: [[1, [2, error 'm-memo-deep']], 3], "
+            "eq: self.fs == self.fs, ne: self.fs != self.fs, eq_o: self.o == self.o, eq_n: self.nested == self.nested, "
+            "equals: std.equals(self.fs, self.fs), aeq: std.assertEqual(self.fs, self.fs), wrapped: [self.fs] == [self.fs], "
+            "lt: self.un < self.un, le: self.un <= self.un, cmp: std.__compare(self.un, self.un), lt_m: self.mixed < self.mixed, "
+            "eq_deep: self.deep == self.deep, add: self.fs + self.o, str: std.toString(self.nested), sort: std.sort(self.un), "
+            "len: std.length(self.fs) + std.length(self.nested), ok: self.un == self.un}")
+    add("memo_ops", memo, ["@.eq", "@.ne", "@.eq_o", "@.eq_n", "@.equals", "@.aeq", "@.wrapped", "@.lt", "@.le", "@.cmp", "@.lt_m",
+                           "@.eq_deep", "@.add", "@.str", "@.sort", "@.len", "@.ok", "@"])
     objs = {
         "field_err": "{x: 1, bad: error 'm-inh'}", "assert": "{assert false : 'm-a-inh', x: 1}", "overflow": "{x: 1, bad: deep(450)}",
         "nested": "{x: 1, bad: [1, {q: error 'm-deep-inh'}]}", "hidden_only": "{x: 1, bad:: error 'm-hidden-never'}",
@@ -488,6 +499,9 @@ def matrix_shard(args):
     try:
         for i in range(n):
             cluster = MATRIX_CLUSTERS[(seed * 7919 + i * 104729) % len(MATRIX_CLUSTERS)] if i % 2 == 0 else rng.choice(MATRIX_CLUSTERS)
+            if i % 8 == 3:
+                # the large clusters (many operations over the same memoised operands) need more than their share of histories
+                cluster = rng.choice([c for c in MATRIX_CLUSTERS if len(c) >= 15])
             h = [(rng.choice(cluster), rng.choice([None, None, None, 120, 2000]), rng.random() < 0.7, rng.random() < 0.4, rng.random() < 0.2)
                  for _ in range(rng.randint(2, 5))]
             if run_history(agg, srv, srv2, h, rng.choice(["import", "ext"]), lib=MATRIX_LIB, reqs=MATRIX_REQS):
